@@ -1,9 +1,45 @@
-(* C06 — $$ escapes any literal dollar. Statements only. *)
-From Coq Require Import String Ascii List.
-From Bkl Require Import Model.Value Model.Str Proofs.StrProofs.
+(* C06 — plain data passes through unchanged; $$ escapes any literal dollar.
+   Statements only; proofs in Proofs/PlainProofs.v, Proofs/EscapeProofs.v, Proofs/StrProofs.v.
+   [plain v]      : no key or string of v is recognised by an evaluation phase ($merge:, $replace:, $"...",
+                    $env:, $repeat, the directive keys), maps strictly sorted;
+   [noesc v]      : no doubled dollar; [dn v]: v with null map values / list entries dropped;
+   [esc v]        : v with every $ doubled in every key and string; [sorted_both v]: maps sorted before and
+                    after escaping (escaping is monotone; stated per input, not proved);
+   [height v]     : nesting depth; the evaluator's depth guard refuses documents deeper than [depth_limit]. *)
+From Coq Require Import String Ascii List ZArith.
+From Bkl Require Import Model.Value Model.Str Model.Eval Proofs.StrProofs Proofs.PlainProofs Proofs.EscapeProofs.
 Import ListNotations.
+Local Open Scope string_scope.
+Local Open Scope list_scope.
 
 (* strings.ReplaceAll(s, "$$", "$") undoes the doubling of every dollar, for every string *)
 Theorem C06_unescape_escape : forall s, unescape (escape s) = s.
 Proof. exact unescape_escape. Qed.
 Print Assumptions C06_unescape_escape.
+
+(* bkl is the identity on plain configuration: the document evaluates to itself, only nulls are dropped *)
+Theorem C06_identity : forall o v, plain v -> validate_go o (dn v) = None -> noesc v -> height v <= depth_limit ->
+  eval_docs o [v] = Ok (match v with VNull => [] | _ => [dn v] end).
+Proof. exact eval_plain. Qed.
+Print Assumptions C06_identity.
+
+(* an escaped string is never taken for a directive, by any phase, in key or value position *)
+Theorem C06_escaped_inert : forall o s,
+  plain_str (escape s) /\ plain_key (escape s) /\ validate_string o (escape s) = None.
+Proof. intros o s. split; [apply escape_plain_str|]. split; [apply escape_plain_key|apply escape_valid]. Qed.
+Print Assumptions C06_escaped_inert.
+
+(* doubling every $ in arbitrary data (any strings, keys and values, any depth) yields a document that
+   evaluates to exactly the original data *)
+Theorem C06_escape : forall o v, sorted_both v -> height v <= depth_limit ->
+  eval_docs o [esc v] = Ok (match v with VNull => [] | _ => [dn v] end).
+Proof. exact eval_escaped. Qed.
+Print Assumptions C06_escape.
+
+(* non-vacuity: $FOO, ${X}, $(cmd) are plain; a tree over directive names is sorted both ways *)
+Example C06_plain_examples : plain_str "$FOO" /\ plain_str "${X}" /\ plain_str "$(cmd)" /\ plain_key "a.b".
+Proof. repeat split; try reflexivity; cbn; intuition discriminate. Qed.
+Example C06_escape_example : forall o,
+  eval_docs o [esc (VMap [("$merge", VStr "$required"); ("a", VList [VStr "$env:HOME"; VNull])])]
+  = Ok [VMap [("$merge", VStr "$required"); ("a", VList [VStr "$env:HOME"])]].
+Proof. intro o. apply (eval_escaped o). - cbn. repeat split; repeat constructor. - cbn. unfold depth_limit. repeat constructor. Qed.
